@@ -27,9 +27,12 @@ BUDGET_S = {'quick': 150, 'thorough': 1500}
 SPECIAL_TOKS = ["it's", 'say "hi"', 'a\\b', 'tab\there', 'ünï', '東京', "'", '"', '\\', '//', '`', '{', '#x', '->', ' sp ']
 SPECIAL_PATS = [(' lead', [' lead']), ('a/b', ['a/b']), (r'\d+', ['12']), ('[\'"]', ["'", '"']), (r'x\/y', ['x/y']), ('(?i)ab', ['AB', 'ab']), (r'\w+\s', ['ab ']),
                 ('[^/]+/', ['q/']), ('"q"', ['"q"']), ('a/"b', ['a/"b']), ('[\\\\/]', ['/', '\\']), ('a\\\\/b', ['a\\/b']), ('[/"\']x', ['/x', '"x', "'x"]), ('', ['']), ("y/'", ["y/'"]), (r'\\', ['\\']), ('[a-c]+?', ['a']),
+                # the pattern '.', which is not the any-character expression (it stops at a line break); a literal TAB; a line break in a
+                # pattern that is not verbose (there the line break and what follows it are matched, not ignored)
+                ('.', ['x', '\n']), ('a\tb', ['a\tb']), ('a\nb', ['a\nb']), ('x\n  y', ['x\n  y']),
                 # multi-line (verbose) patterns: the first line follows the opening slash, the others are indented
                 ('(?x)\n    [a-c]      # first\n    [a-c0-9]*  # rest\n    ', ['a1', 'abc']), ('(?x)\n  a+\n      b*\n', ['ab', 'a']), ('(?x) a\n   b', ['ab'])]
-CONSTS = ['7', 'k', "'s'", '2.5', 'a b', 'x{}y', "it's", 'None', 'True', 'two\nlines', 'a b\n  c d\ne', "' x '", '\n  x\n   y\n']
+CONSTS = ['7', 'k', "'s'", '2.5', 'a b', 'x{}y', "it's", 'None', 'True', 'two\nlines', 'a b\n  c d\ne', "' x '", '\n  x\n   y\n', 'x`y', 'a``b c']
 ALERTS = ['msg', 'bad thing here', 'x', 'two\nlines']
 DIRECTIVES = [
     ('whitespace', "/[ \\t]+/"), ('whitespace', 'None'), ('whitespace', "/\\s+/"), ('nameguard', 'False'), ('nameguard', 'True'), ('ignorecase', 'True'),
